@@ -119,9 +119,14 @@ def impl_history(cls, x0, x, dt, pre, order, modify=None):
 def impl_fas2values(re, im, dt, as_signal=None):
     from eqsig.fns import frequency as fq
     fas = np.array(re, dtype=float) + 1j * np.array(im, dtype=float)
+    # the half spectrum handed in (typically an object's cached fa_spectrum) must not be modified, and a second call must agree
     if as_signal is None:
-        return np.array(fq.fas2values(fas, dt))
-    return np.array(fq.fas2signal(fas, dt, stype=as_signal).values)
+        r = core.guarded_pure(fq.fas2values, fas, dt)
+    else:
+        r = core.guarded_pure(lambda f, d: np.array(fq.fas2signal(f, d, stype=as_signal).values), fas, dt)
+    if isinstance(r, ImplError):
+        raise RuntimeError(str(r))
+    return np.array(r)
 
 
 def impl_max_fa_period(cls, x, dt):
